@@ -159,11 +159,22 @@ def scenario_for(seed, index, tier, _depth=0, _proto=None):
         # the first attempt is rejected; the exception handler itself calls
         # connect() again (no user-level disconnect() in between)
         via = 'handler'
+    # the version may be negotiated first (status query on a connection of
+    # its own, then the login at the version the server reported) instead
+    # of being pinned: everything after that must be just the same
+    negotiate = _depth == 0 and rng.random() < 0.25
+    if negotiate:
+        import json as _json
+        _status = {'status': {'mode': 'reply', 'json': _json.dumps({
+            'version': {'name': 'sim', 'protocol': proto},
+            'description': {'text': 'c10'}})}}
     return {
+        'negotiate': negotiate,
         'proto': proto, 'logins': logins, 'auth': auth, 'join_reply': join,
         'second_via': via,
         'user_plugin_listener': bool(user_plugin),
-        'server': {'conns': [dict({'login': lg['steps'], 'play': play},
+        'server': {'conns': ([_status] if negotiate else []) + [
+            dict({'login': lg['steps'], 'play': play},
                                   **dict(
                                       ({'close_mode': 'rst'}
                                        if (lg.get('late') or {}).get('rst')
@@ -229,7 +240,12 @@ def execute(scenario, tape):
                 st['handler_reconnect'] = True
                 conn.connect()
         conn = Connection('sim.example', 25565,
-                          allowed_versions=[scenario['proto']],
+                          allowed_versions=(
+                              [scenario['proto'],
+                               max(p_ for p_ in common.supported()
+                                   if p_ != scenario['proto'])]
+                              if scenario.get('negotiate')
+                              else [scenario['proto']]),
                           handle_exception=on_exc,
                           handle_exit=lambda: cur()['exits'].append(1), **kw)
         w.conn = conn
@@ -324,9 +340,12 @@ def check(scenario, w, st, res):
                    'server_errors': [a.errors[:2] for a in w.server.apps],
                    'waiting': [a.waiting for a in w.server.apps]}))
         return
-    if len(w.server.apps) != len(scenario['logins']):
+    off = 1 if scenario.get('negotiate') else 0
+    if len(w.server.apps) != len(scenario['logins']) + off:
         V.append(('C10/tcp-connection-count', len(w.server.apps)))
         return
+    if off:
+        res.probes['login-after-version-negotiation'] = 1
     for k, lg in enumerate(scenario['logins']):
         check_login(scenario, w, st, res, ids, k, lg, ob)
         if V:
@@ -343,7 +362,7 @@ def check_login(scenario, w, st, res, ids, k, lg, ob):
     sim = w.sim
     V = res.violations
     steps = lg['steps']
-    app = w.server.apps[k]
+    app = w.server.apps[k + (1 if scenario.get('negotiate') else 0)]
     L = st['L'][k]
     errs = L['errs']
 
@@ -499,6 +518,8 @@ def check_login(scenario, w, st, res, ids, k, lg, ob):
             elif s[0] == 'success':
                 exp.append('login success')
         exp += ['keep alive', 'disconnect']
+        if k == 0 and scenario.get('negotiate'):
+            exp = ['response'] + exp      # the status reply that came first
         ob()
         if st['log'] != exp:
             V.append(('C10/client-decoded-sequence',
@@ -534,18 +555,26 @@ def check_login(scenario, w, st, res, ids, k, lg, ob):
 
 
 def shrink_scenario(sc):
+    if sc.get('negotiate'):
+        c = copy.deepcopy(sc)
+        c['negotiate'] = False
+        c['server']['conns'] = c['server']['conns'][1:]
+        yield c
     if len(sc['logins']) > 1:
         for keep in (1, 0):
             c = copy.deepcopy(sc)
             c['logins'] = [c['logins'][keep]]
-            c['server']['conns'] = [c['server']['conns'][keep]]
+            o_ = 1 if c.get('negotiate') else 0
+            c['server']['conns'] = c['server']['conns'][:o_] + \
+                [c['server']['conns'][o_ + keep]]
             c['second_via'] = 'user'
             yield c
     for k, lg in enumerate(sc['logins']):
         for j in range(len(lg['steps']) - 1):
             c = copy.deepcopy(sc)
             del c['logins'][k]['steps'][j]
-            c['server']['conns'][k]['login'] = c['logins'][k]['steps']
+            c['server']['conns'][k + (1 if c.get('negotiate') else 0)][
+                'login'] = c['logins'][k]['steps']
             yield c
     for k in ('segment', 'short_read'):
         if sc['net'].get(k):
